@@ -152,7 +152,7 @@ func checkC04(c c04Case) error {
 	var decodedMsg *cose.Sign1Message
 	var decodedSig *cose.Signature
 	switch c.Mode {
-	case "constructed":
+	case "constructed", "re-issued":
 		h = cose.Headers{Protected: bridge.ToProtected(pm), Unprotected: c.unprotGo()}
 	case "re-decoded":
 		// a Headers value that held another message before is re-used through the public
@@ -281,6 +281,15 @@ func checkC04(c c04Case) error {
 		}
 	}
 
+	// "re-issued": what the message object was before
+	priorAlg := cose.AlgorithmPS512
+	if c.SignerAlg == int64(cose.AlgorithmPS512) {
+		priorAlg = cose.AlgorithmES384
+	}
+	priorHeaders := func() cose.Headers {
+		return cose.Headers{Protected: cose.ProtectedHeader{int64(1): priorAlg, int64(4): []byte("prior")}, Unprotected: cose.UnprotectedHeader{}}
+	}
+	priorSigner := func() cose.Signer { return &bridge.SpySigner{Alg: priorAlg} }
 	spyS := &bridge.SpySigner{Alg: cose.Algorithm(c.SignerAlg)}
 	spyV := &bridge.SpyVerifier{Alg: cose.Algorithm(c.SignerAlg)}
 	rnd := refcose.NewEntropy(nil)
@@ -292,6 +301,19 @@ func checkC04(c c04Case) error {
 		m := &cose.Sign1Message{Headers: h, Payload: payload}
 		if decodedMsg != nil {
 			m = decodedMsg
+		}
+		if c.Mode == "re-issued" {
+			// the same message object was signed under another algorithm and encoded before; its
+			// header maps are then replaced and it is signed / verified again
+			m.Headers = priorHeaders()
+			if err := m.Sign(rnd, nil, priorSigner()); err != nil {
+				return fmt.Errorf("harness: prior signing: %v", err)
+			}
+			if _, err := m.MarshalCBOR(); err != nil {
+				return fmt.Errorf("harness: prior encoding: %v", err)
+			}
+			m.Headers.Protected, m.Headers.Unprotected = h.Protected, h.Unprotected
+			m.Signature = nil
 		}
 		if c.Op == "sign" {
 			m.Signature = nil
@@ -314,6 +336,17 @@ func checkC04(c c04Case) error {
 	case "Signature":
 		tbsIdx = 2
 		s := &cose.Signature{Headers: h}
+		if c.Mode == "re-issued" {
+			s.Headers = priorHeaders()
+			if err := s.Sign(rnd, priorSigner(), []byte{0x40}, payload, nil); err != nil {
+				return fmt.Errorf("harness: prior signing: %v", err)
+			}
+			if _, err := s.MarshalCBOR(); err != nil {
+				return fmt.Errorf("harness: prior encoding: %v", err)
+			}
+			s.Headers.Protected, s.Headers.Unprotected = h.Protected, h.Unprotected
+			s.Signature = nil
+		}
 		if c.Op == "sign" {
 			opErr = s.Sign(rnd, spyS, []byte{0x40}, payload, ext)
 			if opErr == nil {
@@ -326,6 +359,17 @@ func checkC04(c c04Case) error {
 	case "Countersignature":
 		tbsIdx = 2
 		cs := &cose.Countersignature{Headers: h}
+		if c.Mode == "re-issued" {
+			cs.Headers = priorHeaders()
+			if err := cs.Sign(rnd, priorSigner(), c04Parent, nil); err != nil {
+				return fmt.Errorf("harness: prior signing: %v", err)
+			}
+			if _, err := cs.MarshalCBOR(); err != nil {
+				return fmt.Errorf("harness: prior encoding: %v", err)
+			}
+			cs.Headers.Protected, cs.Headers.Unprotected = h.Protected, h.Unprotected
+			cs.Signature = nil
+		}
 		if c.Op == "sign" {
 			opErr = cs.Sign(rnd, spyS, c04Parent, ext)
 			if opErr == nil {
@@ -488,7 +532,7 @@ func TestC04_Grid(t *testing.T) {
 	structs := []string{"Sign1", "Untagged", "Signature", "Countersignature", "HashEnvelope"}
 	signerAlgs := []int64{-7, -8, -37, -65537, 7}
 	for _, st := range structs {
-		for _, mode := range []string{"constructed", "decoded", "raw+map", "raw-only", "re-decoded"} {
+		for _, mode := range []string{"constructed", "decoded", "raw+map", "raw-only", "re-decoded", "re-issued"} {
 			for _, op := range []string{"sign", "verify"} {
 				if mode == "decoded" && op == "sign" {
 					continue
@@ -504,6 +548,9 @@ func TestC04_Grid(t *testing.T) {
 							if mode == "constructed" {
 								lsps = []uint8{0, 1, 2, 3, 4, 5, 6, 7, 8, 9}
 								vsps = valueSpellings(av)
+							}
+							if mode == "re-issued" && st == "HashEnvelope" {
+								continue
 							}
 							for _, lsp := range lsps {
 								for _, vsp := range vsps {
@@ -532,7 +579,7 @@ func TestC04_Random(t *testing.T) {
 	prop(t, func(rt *rapid.T) {
 		c := c04Case{
 			Struct:    rapid.SampledFrom([]string{"Sign1", "Untagged", "Signature", "Countersignature", "HashEnvelope"}).Draw(rt, "struct"),
-			Mode:      rapid.SampledFrom([]string{"constructed", "constructed", "decoded", "raw+map", "re-decoded"}).Draw(rt, "mode"),
+			Mode:      rapid.SampledFrom([]string{"constructed", "constructed", "decoded", "raw+map", "re-decoded", "re-issued"}).Draw(rt, "mode"),
 			Op:        rapid.SampledFrom([]string{"sign", "verify"}).Draw(rt, "op"),
 			SignerAlg: rapid.SampledFrom([]int64{-7, -8, -35, -36, -37, -38, -39, -65537, 7, 1 << 40}).Draw(rt, "signer-alg"),
 			Ext:       rapid.IntRange(0, 2).Draw(rt, "ext"),
